@@ -1200,7 +1200,7 @@ class Template:
             lstrip_blocks,
             newline_sequence,
             keep_trailing_newline,
-            frozenset(extensions),
+            tuple(extensions),
             optimized,
             undefined,  # type: ignore
             finalize,
